@@ -132,7 +132,21 @@ func fnKey(fn *ssa.Function) string {
 }
 
 func isRepoFn(fn *ssa.Function) bool {
-	return fn != nil && fn.Pkg != nil && strings.HasPrefix(fn.Pkg.Pkg.Path(), modPath) && fn.Blocks != nil
+	if fn == nil || fn.Blocks == nil {
+		return false
+	}
+	if fn.Pkg == nil {
+		// synthetic wrapper of a promoted method on a repo type
+		if fn.Synthetic != "" && fn.Signature.Recv() != nil {
+			t := fn.Signature.Recv().Type()
+			if p, ok := t.(*types.Pointer); ok {
+				t = p.Elem()
+			}
+			return isRepoType(t)
+		}
+		return false
+	}
+	return strings.HasPrefix(fn.Pkg.Pkg.Path(), modPath)
 }
 
 // findGlobalInit returns the initialiser expression of a package-level variable
